@@ -150,7 +150,7 @@ def random_cfgs(tier, base_id, algos=("T_HOO", "HCT", "VHCT"), queries=False, se
                 raise C.Machinery("no representable parameter draw")
             i += 1
             q = sorted(rnd.sample(range(n), 4)) if queries or rep % 4 == 0 else []
-            cfgs.append({"id": i, "algo": algo, "kind": kind, "K": Kk, "D": D, "box": box, "n": n, "T": n, "prm": prm, "pattern": rnd.choice(["g01", "bern", "peak", "peak", "tied", "const", "flat"]), "seed": rnd.randrange(1 << 30), "queries": q, "midq": sorted(rnd.sample(range(n), 3)) if rep % 4 == 2 else []})
+            cfgs.append({"id": i, "algo": algo, "kind": kind, "K": Kk, "D": D, "box": box, "n": n, "T": n, "prm": prm, "pattern": rnd.choice(["g01", "bern", "peak", "peak", "tied", "const", "flat"]), "seed": rnd.randrange(1 << 30), "queries": q, "midq": sorted(rnd.sample(range(n), 3)) if rep % 4 == 2 else [], "rtype": [None, "f32", "f64", "i64", "int", None][rep % 6]})
     # nu sqrt(n) exactly a power of 1/rho: the published depth bound of T-HOO is an integer -- the place where a
     # differently rounded evaluation of the same formula, or int()+1 for ceil(), goes wrong
     if "T_HOO" in algos:
